@@ -4,8 +4,13 @@
    The DNS resolver is outside the library: it is a function `resolve` from the queried name to the answer set (or an exception).
    dns.resolver.resolve and dns.asyncresolver.resolve are the blocking / awaitable flavours of the same query and get the same
    meaning; both only for the arguments the model's query stands for (record type "SRV", search list on).
-   _get_highest_answer contains a lambda (refused by the translator): as a callee it is the model's selection function
-   Model/Dns.v get_highest_answer, the function the C20 theorems are about. *)
+   _get_highest_answer as a CALLEE of lookup_dc is the model's selection function Model/Dns.v get_highest_answer, the function the
+   C20 theorems are about; its own body is regenerated too (k_flow_get_highest_answer: the translator desugars
+   `sorted(answers, key=lambda a: K)` into sorted/key(answers, [K for a in answers]), which is how CPython evaluates it) and
+   Proofs/Flow_core_dns.v proves that the body computes that selection function. For the body the world gives: a record of the
+   answer (dnspython rdata) is its four SRV fields with `target` standing for the TEXT of the dns Name, so `str(..)` of it is that
+   text; `SrvRecord(target=, port=, weight=, priority=)` builds the tuple; `s.rstrip(chars)` on a str; `sorted/key(xs, keys)` is a
+   stable insertion sort of xs by keys that are pairs of ints under Python's tuple order (other key shapes get no meaning). *)
 From V Require Import Prelude.Base Prelude.PyAst Prelude.PyWorld.
 From V Require Import Model.Types Model.Dns.
 Local Open Scope string_scope.
@@ -24,6 +29,27 @@ Fixpoint fstring (l : list (pv obj)) : option pystr :=
   | [] => Some []
   | VS s :: r => match fstring r with Some t => Some (s ++ t) | None => None end
   | _ => None
+  end.
+
+(* sorted(xs, key=..) with the keys already computed: stable insertion sort (an element goes before the first element whose key is
+   not smaller than its own; elements are inserted from the right, so equal keys keep their order) *)
+Definition key2 (v : pv obj) : option (Z * Z) := match v with VT [VI a; VI b] => Some (a, b) | _ => None end.
+Fixpoint keys2 (l : list (pv obj)) : option (list (Z * Z)) :=
+  match l with
+  | [] => Some []
+  | v :: r => match key2 v, keys2 r with Some k, Some ks => Some (k :: ks) | _, _ => None end
+  end.
+Fixpoint insert_k {A} (x : A * (Z * Z)) (s : list (A * (Z * Z))) : list (A * (Z * Z)) :=
+  match s with
+  | [] => [x]
+  | y :: r => if key_lt (snd y) (snd x) then y :: insert_k x r else x :: s
+  end.
+Fixpoint isort_k {A} (l : list (A * (Z * Z))) : list (A * (Z * Z)) :=
+  match l with [] => [] | x :: r => insert_k x (isort_k r) end.
+Definition sorted_key (xs ks : list (pv obj)) : option (list (pv obj)) :=
+  match keys2 ks with
+  | Some k => if Nat.eqb (length k) (length xs) then Some (map fst (isort_k (combine xs k))) else None
+  | None => None
   end.
 
 Section WithResolver.
@@ -52,13 +78,29 @@ Definition core_ext : ext obj :=
            then Some (let* l := resolve name in Ok (VO (OAnswer l))) else None
          | _ => None
          end
+       else if String.eqb f "str" then
+         match args with [VS s] => Some (Ok (VS s)) | _ => None end
+       else if String.eqb f "SrvRecord/target,port,weight,priority" then
+         match args with
+         | [VS tg; VI po; VI we; VI pr] =>
+           Some (Ok (VO (OSrv {| srv_target := tg; srv_port := po; srv_weight := we; srv_priority := pr |})))
+         | _ => None
+         end
+       else if String.eqb f "sorted/key" then
+         match args with
+         | [VL xs; VL ks] => match sorted_key xs ks with Some l => Some (Ok (VL l)) | None => None end
+         | _ => None
+         end
        else if String.eqb f "_get_highest_answer" then
          match args with
          | [VO (OAnswer l)] => Some (let* r := get_highest_answer l in Ok (VO (OSrv r)))
          | _ => None
          end
        else None;
-     x_meth := fun _ _ _ => None;
+     x_meth := fun m recv args =>
+       if String.eqb m "rstrip" then
+         match recv, args with VS s, [VS chars] => Some (Ok (VS (rstrip chars s), recv)) | _, _ => None end
+       else None;
      x_truthy := fun _ => Ok true;
      x_eqb := fun _ _ => None;
      x_iter := fun o => match o with OAnswer l => Ok (map (fun r => VO (OSrv r)) l) | _ => Raise TypeError end;
